@@ -251,9 +251,10 @@ def small_spec(seq, ties, deco, pid="P1", d=2, offset=0):
 # slots per part. Every slot is one time point; the longest value stays below the length at which the deep copy
 # made by transpose() needs more than its recursion limit of 10000 frames (12-16 frames per time point for these
 # patterns, i.e. 620-830 slots; see ASSUMPTIONS of checks/c16.py)
-LONG_N = (30, 120, 500)
-# lengths a correct transpose() must handle as well, not enumerated while the deep copy is recursion bound
-LONG_N_PENDING = (1100, 2600)
+LONG_N = (30, 120, 500, 1100)
+# (1100: beyond the 620-830 slots at which the fixed recursion limit of transpose() gave out - repaired in /repo ec35dac)
+# thorough only (cost: about 2.7 s per case)
+LONG_N_THOROUGH = (2600,)
 # (divisions per quarter, time of the first slot): the plain scale, a fine grid, a start beyond 2**31 divisions
 LONG_SCALES = ((2, 0), (2 * 10080, 0), (2, 2 ** 31 + 1))
 
